@@ -1,4 +1,6 @@
 """C03 — every training update follows the true gradient of the regularised objective."""
+import contextlib
+import io
 import itertools
 
 import numpy as np
@@ -308,6 +310,13 @@ def fit_cases(ctx, rs, nfits):
                       learning_rate=0.05, gemini=str(rs.choice(["kl_ova", "mmd_ova", "hellinger_ovo", "chi2_ova"])))
             if fam == "MLPModel":
                 kw["n_hidden_dim"] = 3
+        if it % 3 == 2 and fl.accepts(cls, "verbose"):
+            # the progress-report path (`verbose=True`) must train exactly like the silent one: what it prints may not disturb the
+            # state back-propagation relies on (seeded change C03-14: a full-data `_infer` that overwrote the retained activations)
+            kw["verbose"] = True
+            if it % 12 == 11 and "batch_size" in kw:
+                kw["batch_size"] = None      # the whole data in one batch: the silent-corruption case of a full-data side computation
+            ctx.count("fit:verbose")
         inp = {"estimator": fam, "params": {k: (v.tolist() if isinstance(v, np.ndarray) else v) for k, v in kw.items()}, "X": X.tolist(),
                "decorated": bool(decorated)}
         model = cls(**kw)
@@ -363,7 +372,8 @@ def fit_cases(ctx, rs, nfits):
                 # a transparent spy on the instance's `_batchify` (possibly the mlcl wrapper, which carries attributes such as
                 # `.indices` that `decorate_grads` reads): every attribute access is forwarded to the real object
                 model._batchify = BatchSpy(model._batchify, steps)
-                model.fit(X)
+                with contextlib.redirect_stdout(io.StringIO()):
+                    model.fit(X)
         except Exception as e:
             ctx.case((fam, repr(kw)), False, None)
             ctx.count(f"fit_raised:{fam}:{type(e).__name__}")
